@@ -557,10 +557,20 @@ def r8_thaw_thresholds(ck, P):
 def r9_copy_in_source_format_keeps_palette(ck, P, rid='C17-R9'):
     """T-ORD: an image created in the format of another image in order to receive a copy of it is given that image's palette before the
     copy is composited into it - the pixels of an indexed format are stored (and later read) through bits.indexed."""
-    R = ck.rule(rid, 'wherever the library creates an image in the format loaded from another image (pixman_image_create_bits (I->bits.format, ...)) and then composites into it, the path from the creation to the composite passes through pixman_image_set_indexed (new, I->bits.indexed): for c8 / g8 / c4 / g4 / g1 the store routines look colours up in bits.indexed, which is NULL in a freshly created image', floor=1)
+    R = ck.rule(rid, 'wherever the library creates an image in the format loaded from another image (pixman_image_create_bits* (I->bits.format, ...)) and then composites into it, the constructor is one that clears the storage (the copy writes only inside the composite region) and the path from the creation to the composite passes through pixman_image_set_indexed (new, I->bits.indexed): for c8 / g8 / c4 / g4 / g1 the store routines look colours up in bits.indexed, which is NULL in a freshly created image', floor=1)
     n = 0
+    # the public constructors of bits images, and whether they hand out cleared storage (the flag they pass to the internal creator)
+    ctors = {}
+    for g in P.functions():
+        if g.exported and g.name.startswith('pixman_image_create_bits'):
+            clear = None
+            for c in g.calls():
+                h = P.resolve(g, c.callee) if c.callee else None
+                if h is not None and not h.exported and c.a and c.a[-1][0] == 'c':
+                    clear = int(c.a[-1][1]) != 0
+            ctors[g.name] = clear
     for f in P.functions():
-        for c in f.calls('pixman_image_create_bits'):
+        for c in [c for c in f.calls() if c.callee in ctors]:
             y = f.v(f.strip_casts(c.a[0])) if c.a and c.a[0][0] == 'v' else None
             if y is None or y.op != 'load' or f.last_field(f.path(y.a[0])) != 'bits_image.format':
                 continue
@@ -586,6 +596,9 @@ def r9_copy_in_source_format_keeps_palette(ck, P, rid='C17-R9'):
             for d in comps:
                 n += 1; ck.saw(f)
                 where = '%s: copy composited at %s into the image created at %s' % (f.name, d.loc(), c.loc())
+                if ctors.get(c.callee) is not True:
+                    ck.violation(R, f.name, 'copy target not cleared', '%s creates the image that receives the copy with %s, which does not clear the storage; the copy is a composite and writes only inside the composite region (a source with a client clip and source clipping leaves the rest untouched), so the copy holds whatever the allocator returned there' % (f.name, c.callee), c.loc())
+                    continue
                 # a path from the creation to the composite that sets no palette; the guard `if (I->bits.indexed)` may skip the call when
                 # there is no palette to carry over
                 def barrier(x):
